@@ -6,9 +6,6 @@ import VaxisModel.Lemmas.TextInput
 import VaxisModel.Lemmas.TextInputCells
 import VaxisModel.Lemmas.EditorCl
 import VaxisModel.Lemmas.TextInputCl
-import VaxisModel.Gen.EditorKeys
-import VaxisModel.Gen.EditorBodies
-import VaxisModel.Lemmas.EditorBodies
 
 /-! C17 — line editors behave like an ideal grapheme line editor.
 
@@ -323,12 +320,9 @@ example :
        .ev (.key "BackSpace" false false false [])]).map
         (fun r => (r.1.content, r.1.cursor)) = some ([], 0) := by decide
 
-/-! ### Tie to the source through the extractor (`Gen/EditorKeys.lean`, regenerated every run) -/
-
-/-- The case labels of `switch msg.String()` in textinput.Update, in source order, are the labels
-the model dispatches on. -/
-theorem update_bindings_extracted :
-    Gen.EditorKeys.updateCases = bindingTable.map (·.1) := by decide
+/-! ### Tie to the source through the extractor: the theorems over `Gen/EditorKeys.lean` and `Gen/EditorBodies.lean`
+    (regenerated every run) are in `Props/C17Facts.lean`, `C17FactsTF.lean`, `C17FactsTI.lean` (same namespace), so that a
+    changed source breaks those modules and not the refinement theorems of this one. -/
 
 /-- Every label of the table reaches the ideal operation of its arm (so `keyMeaning`, over which
 `textinput_refines` is proved, implements the extracted table); the default arm inserts the text
@@ -339,47 +333,6 @@ theorem update_bindings_meaning :
     keyMeaning "Ctrl+x" true false false ([7] : List Nat) = .noop ∧
     keyMeaning "Alt+x" false true false ([7] : List Nat) = .noop ∧
     keyMeaning "Super+x" false false true ([7] : List Nat) = .noop := by decide
-
-theorem update_default_guards_extracted :
-    Gen.EditorKeys.updateDefaultGuards =
-      ["msg.Modifiers&vaxis.ModCtrl != 0", "msg.Modifiers&vaxis.ModAlt != 0", "msg.Modifiers&vaxis.ModSuper != 0"] := by decide
-
-/-- The scroll loop of textinput.Draw has the guard modelled in `TextInput.scrollLoop` (F47 fix) and
-scrolloff is 4. -/
-theorem draw_loop_extracted :
-    Gen.EditorKeys.drawLoopConds =
-      ["m.offset < m.cursor && widthToCursor(chars, m.cursor, m.offset)+col+scrolloff >= winW"] ∧
-    Gen.EditorKeys.textinputScrolloff = 4 := by decide
-
-/-- The `if` chain of TextField.HandleEvent (conditions in source order and the editing function
-each calls first) is the one `TextField.handleKey` transcribes. -/
-theorem handle_event_bindings_extracted :
-    Gen.EditorKeys.handleEventBindings = handleEventTable := by decide
-
-/-- The state updates of every TextField function (writes to `tf.Value`, `tf.cursor`, `tf.n`, receiver calls, returns) and its loops in full, extracted from textfield.go on every run, are the ones the models transcribe (`Lemmas.EditorBodies`): e.g. the recount `tf.n = graphemeCountInString(tf.Value)` after each deletion (F46) and `tf.cursor = graphemeCountInString(next.String())` between the two writes of the insert (F217). -/
-theorem facts_textfield_bodies :
-    Gen.EditorBodies.tfHandleEvent = Lemmas.EditorBodies.tfHandleEvent ∧
-    Gen.EditorBodies.tfCheckChanged = Lemmas.EditorBodies.tfCheckChanged ∧
-    Gen.EditorBodies.tfReset = Lemmas.EditorBodies.tfReset ∧
-    Gen.EditorBodies.tfInsertStringAtCursor = Lemmas.EditorBodies.tfInsertStringAtCursor ∧
-    Gen.EditorBodies.tfCursorTo = Lemmas.EditorBodies.tfCursorTo ∧
-    Gen.EditorBodies.tfDeleteCharRightOfCursor = Lemmas.EditorBodies.tfDeleteCharRightOfCursor ∧
-    Gen.EditorBodies.tfDeleteCharLeftOfCursor = Lemmas.EditorBodies.tfDeleteCharLeftOfCursor ∧
-    Gen.EditorBodies.tfDeleteCursorToEndOfLine = Lemmas.EditorBodies.tfDeleteCursorToEndOfLine ∧
-    Gen.EditorBodies.tfDraw = Lemmas.EditorBodies.tfDraw ∧
-    Gen.EditorBodies.tfInsertLoop = Lemmas.EditorBodies.tfInsertLoop ∧
-    Gen.EditorBodies.tfGraphemeCount = Lemmas.EditorBodies.tfGraphemeCount := by
-  decide +kernel
-
-/-- The same for textinput: `SetContent`, every arm of `Update` with its loops, the final clamping followed by `m.resegment()` (F317), `resegment`, `Draw` with its prompt loop, scroll loop (F47, F117) and cell loop, `isAlphaNumeric`, `widthToCursor`. -/
-theorem facts_textinput_bodies :
-    Gen.EditorBodies.tiSetContent = Lemmas.EditorBodies.tiSetContent ∧
-    Gen.EditorBodies.tiUpdate = Lemmas.EditorBodies.tiUpdate ∧
-    Gen.EditorBodies.tiResegment = Lemmas.EditorBodies.tiResegment ∧
-    Gen.EditorBodies.tiDraw = Lemmas.EditorBodies.tiDraw ∧
-    Gen.EditorBodies.tiIsAlphaNumeric = Lemmas.EditorBodies.tiIsAlphaNumeric ∧
-    Gen.EditorBodies.tiWidthToCursor = Lemmas.EditorBodies.tiWidthToCursor := by
-  decide +kernel
 
 /-- Non-vacuity: "ab cd" + Ctrl+w deletes the last word; a 4-column window draws. -/
 example :
